@@ -129,8 +129,13 @@ impl Cell {
     pub fn blank(attr: Attr) -> Cell {
         Cell { text: " ".into(), attr }
     }
+    /// the cell text is kept exactly as stored (model-free pair monitors compare it exactly);
+    /// the reference-semantics comparison is modulo NFC (`same_modulo_nfc`)
     pub fn of(c: &CharOpts) -> Cell {
-        Cell { text: nfc(&c.data), attr: Attr::of(c) }
+        Cell { text: c.data.clone(), attr: Attr::of(c) }
+    }
+    pub fn same_modulo_nfc(&self, o: &Cell) -> bool {
+        self.attr == o.attr && (self.text == o.text || nfc(&self.text) == nfc(&o.text))
     }
     pub fn show(&self) -> String {
         format!("{:?}[{}]", self.text, self.attr.show())
@@ -235,8 +240,7 @@ fn cell_matches(c: &CharOpts, cell: &Cell) -> bool {
     if !flags_ok {
         return false;
     }
-    let text_ok = if c.data.bytes().all(|b| b < 0x80) { c.data == cell.text } else { nfc(&c.data) == cell.text };
-    text_ok && Col::parse(&c.fg) == cell.attr.fg && Col::parse(&c.bg) == cell.attr.bg
+    c.data == cell.text && Col::parse(&c.fg) == cell.attr.fg && Col::parse(&c.bg) == cell.attr.bg
 }
 
 #[derive(Clone, PartialEq, Eq, Hash, Debug)]
